@@ -94,6 +94,11 @@ func muxRegReset(pinP int) {
 // the event-log hashes and committed replay plans - of the single-connection scenarios do not change.
 var richIdent atomic.Bool
 
+// identNoCmd drops the command text from yield identities. For code under test that sends a batch in Go map order
+// (MSet / MSetNX / JsonMSet helpers): which command comes first is not a function of the seed; task, site and
+// connection still identify the parked goroutine (a task is inside one call at a time). Off by default.
+var identNoCmd atomic.Bool
+
 // queueOwner finds the connection whose pipe owns a flow buffer or a ring slot (registered multiplexers only).
 func queueOwner(obj any) string {
 	muxReg.mu.Lock()
@@ -553,6 +558,7 @@ func VerifSetSim(s *sched.Sim, seed uint64) {
 		queueTypeFromEnv = ""
 		muxRegReset(0)
 		richIdent.Store(false)
+		identNoCmd.Store(false)
 		spinSettle.on.Store(false)
 		yieldFullIdentity.Store(false)
 		cleanupSpinBudget.Store(0)
